@@ -80,27 +80,41 @@ static void one_op(void) {
     unsigned k = rnd(4);
     const char* name = k == 0 ? "add" : k == 1 ? "sub" : k == 2 ? "mul" : "div";
     if (k == 3 && lp_algebraic_number_sgn(b) == 0) return;
-    sb_begin("alg", name); sb_sp(); sb_alg(a); sb_sp(); sb_alg(b); sb_arrow();
-    lp_algebraic_number_construct_zero(&r);
-    if (k == 0) lp_algebraic_number_add(&r, a, b); else if (k == 1) lp_algebraic_number_sub(&r, a, b);
-    else if (k == 2) lp_algebraic_number_mul(&r, a, b); else lp_algebraic_number_div(&r, a, b);
+    unsigned dk = rnd(4); char nm[16]; snprintf(nm, sizeof nm, "%s@%c", name, "fpab"[dk]);
+    const lp_algebraic_number_t* A2 = a; const lp_algebraic_number_t* B2 = b;
+    sb_begin("alg", nm); sb_sp(); sb_alg(a); sb_sp(); sb_alg(b); sb_arrow();
+    /* destination: fresh zero, pre-used (any pool member), or an alias (copy) of an operand */
+    if (dk == 0) lp_algebraic_number_construct_zero(&r);
+    else if (dk == 1) lp_algebraic_number_construct_copy(&r, &pool[rnd(npool)]);
+    else if (dk == 2) { lp_algebraic_number_construct_copy(&r, a); A2 = &r; }
+    else { lp_algebraic_number_construct_copy(&r, b); B2 = &r; }
+    if (k == 0) lp_algebraic_number_add(&r, A2, B2); else if (k == 1) lp_algebraic_number_sub(&r, A2, B2);
+    else if (k == 2) lp_algebraic_number_mul(&r, A2, B2); else lp_algebraic_number_div(&r, A2, B2);
     sb_sp(); sb_alg(&r); sb_emit();
     push_result(&r);
   } else if (op < 50) {              /* neg, inv */
     int inv = chance(50);
     if (inv && lp_algebraic_number_sgn(a) == 0) return;
-    sb_begin("alg", inv ? "inv" : "neg"); sb_sp(); sb_alg(a); sb_arrow();
-    lp_algebraic_number_construct_zero(&r);
-    if (inv) lp_algebraic_number_inv(&r, a); else lp_algebraic_number_neg(&r, a);
+    unsigned dk = rnd(3); char nm[16]; snprintf(nm, sizeof nm, "%s@%c", inv ? "inv" : "neg", "fpa"[dk]);
+    const lp_algebraic_number_t* A2 = a;
+    sb_begin("alg", nm); sb_sp(); sb_alg(a); sb_arrow();
+    if (dk == 0) lp_algebraic_number_construct_zero(&r);
+    else if (dk == 1) lp_algebraic_number_construct_copy(&r, &pool[rnd(npool)]);
+    else { lp_algebraic_number_construct_copy(&r, a); A2 = &r; }
+    if (inv) lp_algebraic_number_inv(&r, A2); else lp_algebraic_number_neg(&r, A2);
     sb_sp(); sb_alg(&r); sb_emit();
     push_result(&r);
   } else if (op < 60) {              /* pow, root */
     int root = chance(50); unsigned n = root ? 2 + rnd(3) : rnd(5);
     if (degree_of(a) > 3) return;
     if (root && lp_algebraic_number_sgn(a) < 0) return;
-    sb_begin("alg", root ? "root" : "pow"); sb_sp(); sb_alg(a); sb_sp(); sb_ulong(n); sb_arrow();
-    lp_algebraic_number_construct_zero(&r);
-    if (root) lp_algebraic_number_positive_root(&r, a, n); else lp_algebraic_number_pow(&r, a, n);
+    unsigned dk = rnd(3); char nm[16]; snprintf(nm, sizeof nm, "%s@%c", root ? "root" : "pow", "fpa"[dk]);
+    const lp_algebraic_number_t* A2 = a;
+    sb_begin("alg", nm); sb_sp(); sb_alg(a); sb_sp(); sb_ulong(n); sb_arrow();
+    if (dk == 0) lp_algebraic_number_construct_zero(&r);
+    else if (dk == 1) lp_algebraic_number_construct_copy(&r, &pool[rnd(npool)]);
+    else { lp_algebraic_number_construct_copy(&r, a); A2 = &r; }
+    if (root) lp_algebraic_number_positive_root(&r, A2, n); else lp_algebraic_number_pow(&r, A2, n);
     sb_sp(); sb_alg(&r); sb_emit();
     push_result(&r);
   } else if (op < 72) {
